@@ -61,7 +61,7 @@ RelaxName(d) ==
       [] d = "dedup" -> "dedupKeepsLast" [] d = "star" -> "starLabelNotCounted"
 RulesFor(D) == [d \in Dims |-> IF d \in D THEN Relaxed(d) ELSE Strict[d]]
 Explains(D) ==
-    LET p == Plan(cfg, world, RulesFor(D)) IN MatchesSteps(Questions(obs), p.steps) /\ ResultAgrees(Res, p.result)
+    Agrees(obs, Res, Plan(cfg, world, RulesFor(D)))
 Explaining == {D \in SUBSET Dims : D # {} /\ Explains(D)}
 Smallest == {D \in Explaining : \A E \in Explaining : Cardinality(E) >= Cardinality(D)}
 ExplainedBy == {{RelaxName(d) : d \in D} : D \in Smallest}
@@ -74,8 +74,9 @@ ResultProblems ==
          \cup (IF NothingLocalAsked(cfg, obs) THEN {} ELSE {"locally-known-name-asked"})
          \cup (IF OnlyStrategyTypes(cfg, obs) THEN {} ELSE {"question-of-other-type"})
          \cup (IF NothingAfterSuccess(cfg, obs) THEN {} ELSE {"asked-after-positive-answer"})
-         \cup (IF MatchesSteps(Questions(obs), Prescribed.steps) THEN {} ELSE {"questions-not-as-prescribed"})
-         \cup (IF ResultAgrees(Res, Prescribed.result) THEN {} ELSE {"result-not-as-prescribed"})
+         \cup (IF Conforms(cfg, world, obs, Res) THEN {}
+               ELSE (IF MatchesSteps(Questions(obs), Prescribed.steps) THEN {} ELSE {"questions-not-as-prescribed"})
+                    \cup (IF ResultAgrees(Res, Prescribed.result) THEN {} ELSE {"result-not-as-prescribed"}))
          \cup (IF e.kind = "ok" /\ ~FamilyOrder(cfg, Res) THEN {"family-order"} ELSE {})
          \cup (IF e.kind = "ok" /\ ~OneCandidate(Res) THEN {"answers-of-several-candidates"} ELSE {})
 
